@@ -11,10 +11,10 @@ META = dict(
     bounds=dict(
         quick="histories of 3 policy calls sharing one real CircuitBreaker (failure_threshold in [1,2], window/recovery "
               "solver reals), each call solver-chosen among Policy.call / Policy.execute / AsyncPolicy.call / "
-              "AsyncPolicy.execute (quick: first call any of the four, later calls two of the four, rotating per job) (job: with a one-attempt retry component, or without retry), operation outcome in "
+              "AsyncPolicy.execute (job: with a one-attempt retry component, or without retry), operation outcome in "
               "{value, TRANSIENT failure (counted), PERMANENT failure (not counted)}, solver-real clock advance before each "
               "call, optionally a direct breaker operation in between; compared step by step with the reference breaker of "
-              "C06; async race: 2 concurrent AsyncPolicy.call coroutines plus a third call started later on a breaker "
+              "C06; direct breaker histories of 3 operations (C06's harness); async race: 2 concurrent AsyncPolicy.call coroutines plus a third call started later on a breaker "
               "whose recovery timeout has elapsed, resumed in every solver-chosen order",
         thorough="4 calls; 3 concurrent coroutines",
     ),
@@ -218,8 +218,13 @@ def jobs(tier):
         for c0 in range(4):
             out.append(dict(name=f"policy:retry={retry}:call0={KINDS[c0]}", harness="rv.props.c07:h_policy",
                             params=dict(retry=retry, calls=calls, direct=not q, pin_call0=c0,
-                                        kinds_later=[KINDS[(c0 + 1) % 4], KINDS[(c0 + 2) % 4]] if q else KINDS),
+                                        kinds_later=KINDS),
                             max_wall_s=wall, weight=3))
+    # breaker-level transition table (direct operations), same reference as C06
+    from rv.props.c06 import OPS
+    for a in range(len(OPS)):
+        out.append(dict(name=f"direct:K={3 if q else 4}:{OPS[a]}", harness="rv.props.c06:h_hist",
+                        params=dict(K=3 if q else 4, pin_ops=[a]), max_wall_s=wall, weight=2))
     out.append(dict(name="race:n=2", harness="rv.props.c07:h_race", params=dict(n=2), max_wall_s=wall))
     out.append(dict(name="race:n=3", harness="rv.props.c07:h_race", params=dict(n=3), max_wall_s=wall, weight=2))
     out.append(dict(name="race:n=3:preflight_abort", harness="rv.props.c07:h_race", params=dict(n=3, preflight_abort=True),
